@@ -104,6 +104,7 @@ def streams(tier, rng, P, only=None, cases=None):
         st, f = impl
         if st != "ok": return ("violation", "macro program did not compile normally: " + st)
         if f["bin1"] != f["bin2"]: return ("violation", "a macro call does not produce the output of its substituted text: %r vs %r" % (c["src"][:140], c["src2"][:140]))
+        if "\x7f" in c["src"]: return None      # (an undefined 0x7F is passed on and reported as an unknown character: the wording of that report is not compared)
         if f["log1"] != f["log2"]: return ("violation", "logs differ between the call and the inlined text")
         return None
     s1 = Stream("macro", cases if (cases and only == "macro") else mk_macro(), lambda c, st, f: [], judge,
@@ -115,11 +116,11 @@ def streams(tier, rng, P, only=None, cases=None):
             defs = {}
             if rng.random() < 0.4:
                 for _ in range(rng.randrange(1, 3)):
-                    ch = rng.choice("bshxkQ"); defs[ch] = rng.choice(["n40,", "n35,", "n60,", "r", "Sub{n36,}n42,", "Sub{n36,}Sub{n38,}n46,", "[2 n41,16]n43,", "'n36,n42,'", "{n38,n38,n38,}"])   # definitions may hold nested blocks
+                    ch = rng.choice("bshxkQ@\x7f"); defs[ch] = rng.choice(["n40,", "n35,", "n60,", "r", "Sub{n36,}n42,", "Sub{n36,}Sub{n38,}n46,", "[2 n41,16]n43,", "'n36,n42,'", "{n38,n38,n38,}"])   # definitions may hold nested blocks
             text = ""
             for _ in range(rng.randrange(1, 10)):
                 x = rng.random()
-                if x < 0.6: text += rng.choice("bshmcHMLo_" + "".join(defs.keys()))
+                if x < 0.6: text += rng.choice("bshmcHMLo_" + "".join(defs.keys()) + ("\x7f" if rng.random() < 0.2 else ""))      # (0x7F: the last slot of the table, undefined unless `$` defined it)
                 elif x < 0.75: text += (rng.choice(["4", "8", "16", "2"]) if text and text[-1] in "bshmcHMLo_" else " ")   # a length only directly after a letter
                 elif x < 0.85: text += "(" + rng.choice(["c", "v100", "o5", "q50", "v(100) o3 c4", "q(50) d", "o(3) e v(90)", "TR(2) c TR(1)"]) + ")"
                 elif x < 0.92: text += rng.choice(["Sub{b}", "SUB{s}"])
